@@ -16,7 +16,7 @@ func init() {
 		ID:      "C05",
 		Level:   "exploration",
 		Workers: 16,
-		Rule: "seeded scenarios over the real service (direct mode): 1-6 MANUALLY clients, 1-3 datatypes out of a pool of keys and types, entry modes create / subscribe / subscribe-or-create, steps {open a datatype (late join), local operation, committed or aborted user transaction (an abort rolls the datatype back to its recorded base and replays), Sync of one client with all its datatypes in one message}; monitors: checkpoint monotonicity after every ApplyPushPullPack, store invariants (C06) after every request, at the end every client syncs to quiescence, then all subscribed clients of a key must equal each other, snapshot.Manager.GetLatestDatatype() and a replay of the stored log; the remote-operation handlers' records give exactly-once / log order / never-own; every fourth scenario runs through the SDK's own Client.Sync() over real grpc with several datatypes per message and shuffled response packs, every second of those with responses lost on the way back (the request was served, Sync() returns an RPC error); in a quarter of the scenarios (direct and SDK) database reads inside push-pull handlers fail now and then, so that single packs are aborted by the server while the rest of the message is served; " +
+		Rule: "seeded scenarios over the real service (direct mode): 1-6 MANUALLY clients, 1-3 datatypes out of a pool of keys and types, entry modes create / subscribe / subscribe-or-create, steps {open a datatype (late join), local operation, now and then a long offline burst of 60-140 operations and transactions before the next sync - one burst in five of more than a thousand operations with units of up to 25 (whatever the SDK does with a large pending list, units stay whole and nothing is lost), committed or aborted user transaction (an abort rolls the datatype back to its recorded base and replays), Sync of one client with all its datatypes in one message}; monitors: checkpoint monotonicity after every ApplyPushPullPack, store invariants (C06) after every request, at the end every client syncs to quiescence, then all subscribed clients of a key must equal each other, snapshot.Manager.GetLatestDatatype() and a replay of the stored log; the remote-operation handlers' records give exactly-once / log order / never-own; every fourth scenario runs through the SDK's own Client.Sync() over real grpc with several datatypes per message and shuffled response packs, every second of those with responses lost on the way back (the request was served, Sync() returns an RPC error); in a quarter of the scenarios (direct and SDK) database reads inside push-pull handlers fail now and then, so that single packs are aborted by the server while the rest of the message is served; " +
 			"non-trivial = at least two clients pushed to the same datatype between two syncs of a third client; distinct = hash of the step script",
 		Assumptions: []string{
 			"MongoDB and the MQTT broker are the in-memory stand-ins (fakemongo, fakemqtt): faithful for the command subset orda issues",
@@ -84,11 +84,19 @@ func (s *svcScenario) step() (string, string) {
 			// before the next sync (whatever the client does with a large pending list - one
 			// message or several - units stay whole and nothing is lost)
 			n := 60 + r.Intn(80)
+			unit := 4
+			if r.Intn(5) == 0 {
+				// a very long offline period: more than a thousand pending operations with long
+				// units among them (beyond any buffer size the SDK may have been given)
+				n = 1030 + r.Intn(120)
+				unit = 24
+				w.c.Count("very_long_bursts", 1)
+			}
 			w.c.Step("%s/%s burst of %d local operations and transactions", cl.Alias, d.Key, n)
 			for i := 0; i < n; i++ {
 				if i%16 == 15 {
 					var body []crdt.Op
-					for j := 0; j < 2+r.Intn(4); j++ {
+					for j := 0; j < 2+r.Intn(unit); j++ {
 						body = append(body, w.g.Op(wrapRep(d)))
 					}
 					runTx(wrapRep(d), body, nil, false)
